@@ -67,6 +67,7 @@ type Params struct {
 	SameCfg     *world.Cfg // when set every factory uses this configuration
 	NoCacheFrac int        // percentage of worlds whose factories never cache
 	LatencyPct  int        // per-mille of external calls that take virtual time
+	FaultPct    int        // per-mille of operations during which one metastore read or KMS call fails (transient error)
 }
 
 type hist struct {
@@ -188,14 +189,27 @@ func scopeOf(s *sess) string {
 // (and became its "latest" alias) without the parent-key validation of the encrypt path.
 func (h *hist) seededByLoad(scope, id string, created int64, after time.Time) bool {
 	calls := h.w.MS.Calls()
+	last := -1
 	for i := len(calls) - 1; i >= 0; i-- {
-		c := calls[i]
+		if c := calls[i]; c.Who == scope && c.ID == id {
+			last = i
+			break
+		}
+	}
+	if last < 0 || calls[last].Op != "load" || calls[last].Created != created || !calls[last].At.After(after) {
+		return false
+	}
+	// F11 is about a cache that has never seen a newer key of this id: if this scope already read or wrote a
+	// later generation, naming the older one again is a different defect (the alias moved backwards)
+	for _, c := range calls[:last] {
 		if c.Who != scope || c.ID != id {
 			continue
 		}
-		return c.Op == "load" && c.Created == created && c.At.After(after)
+		if (c.Out != nil && c.Out.Created > created) || (c.Op == "store" && c.OK && c.Created > created) {
+			return false
+		}
 	}
-	return false
+	return true
 }
 
 func (h *hist) liveFact() *fact {
@@ -264,14 +278,62 @@ func expired(created int64, expire time.Duration, at time.Time) bool {
 	return at.After(time.Unix(created, 0).Add(expire))
 }
 
+// armFault makes, with the configured probability, one of the next few metastore or KMS calls fail.
+func (h *hist) armFault() {
+	if h.p.FaultPct <= 0 || h.rng.Intn(1000) >= h.p.FaultPct {
+		return
+	}
+	// only reads and KMS calls fail: the properties decided here presuppose a metastore that accepts writes
+	if h.rng.Intn(4) == 0 {
+		h.w.KMS.Faults[h.w.KMS.N()+h.rng.Intn(2)] = true
+	} else {
+		h.w.MS.ReadFaultIn = 1 + h.rng.Intn(3)
+	}
+	h.r.Count("transient_faults_armed", 1)
+}
+
+// disarmFault clears pending faults and reports whether one fired since the given call indexes.
+func (h *hist) disarmFault(msFrom, kmsFrom int) bool {
+	fired := false
+	for _, c := range h.w.MS.CallsFrom(msFrom) {
+		if c.Fault != "" {
+			fired = true
+		}
+	}
+	kc := h.w.KMS.Calls()
+	for _, c := range kc[kmsFrom:] {
+		if c.Fault {
+			fired = true
+		}
+	}
+	h.w.MS.ReadFaultIn = 0
+	for k := range h.w.KMS.Faults {
+		delete(h.w.KMS.Faults, k)
+	}
+	if fired {
+		h.r.Count("transient_faults_fired", 1)
+	}
+	return fired
+}
+
 // encrypt performs one Encrypt / Store through s and applies the per-operation oracles.
 func (h *hist) encrypt(s *sess) {
 	payload := h.payload()
+	// the caller's slice usually sits in a larger buffer: neither the payload nor the bytes behind it may change
+	backing := make([]byte, len(payload), len(payload)+64)
+	copy(backing, payload)
+	tail := backing[len(payload):cap(backing)]
+	for i := range tail {
+		tail[i] = 0xA5
+	}
+	payload = backing
 	before := append([]byte(nil), payload...)
 	label := fmt.Sprintf("enc#%d", len(h.recs))
 	h.scope = scopeOf(s)
 	h.w.Led.SetOp(label)
 	msFrom, aeadFrom, ledFrom := h.w.MS.N(), h.w.AEAD.N(), h.w.Led.Len()
+	kmsFrom := h.w.KMS.N()
+	h.armFault()
 	t := h.now()
 	var (
 		drr *appencryption.DataRowRecord
@@ -289,15 +351,31 @@ func (h *hist) encrypt(s *sess) {
 	}
 	h.w.Led.SetOp("")
 	h.r.Count("encrypts", 1)
+	faulted := h.disarmFault(msFrom, kmsFrom)
 	if err != nil {
-		h.logf("factory#%d %q encrypt FAILED: %v", s.fa.id, s.part, err)
+		h.logf("factory#%d %q encrypt FAILED (fault injected=%v): %v", s.fa.id, s.part, faulted, err)
+		if faulted {
+			return
+		}
 		if h.p.Oracles&OC01 != 0 {
 			h.violate("encrypt-failed-without-fault", "encrypt for %q failed although nothing was injected: %v", s.part, err)
 		}
 		return
 	}
-	if !bytes.Equal(before, payload) && h.p.Oracles&OC01 != 0 {
-		h.violate("encrypt-modified-payload", "Encrypt modified the caller's payload buffer (len %d)", len(payload))
+	if h.p.Oracles&OC01 != 0 {
+		if !bytes.Equal(before, payload) {
+			h.violate("encrypt-modified-payload", "Encrypt modified the caller's payload buffer (len %d)", len(payload))
+		}
+		for _, x := range backing[len(payload):cap(backing)] {
+			if x != 0xA5 {
+				h.violate("encrypt-wrote-behind-payload", "Encrypt wrote into the caller's buffer behind the payload slice (len %d, cap %d)", len(payload), cap(backing))
+				break
+			}
+		}
+	}
+	// the caller reuses its buffer afterwards: the record must not alias it
+	for i := range backing[:cap(backing)] {
+		backing[:cap(backing)][i] ^= 0xFF
 	}
 	if drr == nil || drr.Key == nil || drr.Key.ParentKeyMeta == nil {
 		h.violate("encrypt-malformed-record", "Encrypt returned a record without key / parent meta")
@@ -465,6 +543,8 @@ func (h *hist) decrypt(s *sess, rc *rec, how string) {
 	h.scope = scopeOf(s)
 	h.w.Led.SetOp(label)
 	ledFrom, aeadFrom := h.w.Led.Len(), h.w.AEAD.N()
+	msFrom0, kmsFrom0 := h.w.MS.N(), h.w.KMS.N()
+	h.armFault()
 	var (
 		out []byte
 		err error
@@ -478,6 +558,10 @@ func (h *hist) decrypt(s *sess, rc *rec, how string) {
 		out, err = s.s.Decrypt(context.Background(), *arg)
 	}
 	h.w.Led.SetOp("")
+	if h.disarmFault(msFrom0, kmsFrom0) && err != nil {
+		h.logf("factory#%d %q decrypt#%d failed under an injected fault: %v", s.fa.id, s.part, rc.n, err)
+		return
+	}
 	h.r.Count("decrypts", 1)
 	h.r.Count("decrypts_"+how, 1)
 	ok := err == nil && bytes.Equal(out, rc.payload)
